@@ -41,7 +41,7 @@ fn run_scenario(line: &str) -> Vec<String> {
             // (sus MODE AVIEW (G ...)): one of the suspense renders of suspense.rs inside a sequence
             let res = panic::catch_unwind(AssertUnwindSafe(|| suspense::run_one(r[1].atom(), &r[2], &r[3])));
             match res {
-                Ok((lines, n)) => out.push(format!("{} n={}", lines.join("|").replace(' ', "_"), n)),
+                Ok((lines, n, sc)) => out.push(format!("{} n={} sc={},{}", lines.join("|").replace(' ', "_"), n, sc.0, sc.1)),
                 Err(_) => {
                     out.push("PANIC".to_string());
                     break;
@@ -54,12 +54,14 @@ fn run_scenario(line: &str) -> Vec<String> {
         let res = panic::catch_unwind(AssertUnwindSafe(|| match mode.as_str() {
             "sync" => {
                 let mut n = 0;
+                let mut sc = (0, 0);
                 let s = render_to_string(|| {
                     n = verif::node_count();
+                    sc = (use_stable_counter(), use_stable_counter());
                     let sigs = Signals::create(&sig_spec);
                     build(&view, &sigs, None)
                 });
-                format!("{} n={}", hex(&s), n)
+                format!("{} n={} sc={},{}", hex(&s), n, sc.0, sc.1)
             }
             m => panic!("unsupported mode {m}"),
         }));
